@@ -88,7 +88,7 @@ let judge (inp : string) (obs : string) : string * string =
     else
       let oldb = bytes_of_string old and newb = bytes_of_string nw in
       let flt =
-        if mode = "rodir" then K.FailCreate
+        if mode = "rodir" || String.length name >= 250 then K.FailCreate
         else if mode = "rlimit" && String.length nw > limit then K.FailWrite (nat limit)
         else K.NoFault in
       let tr = K.atomic_write tmp tgt newb true [] flt in
@@ -96,7 +96,7 @@ let judge (inp : string) (obs : string) : string * string =
       (name, class_name (K.target_class tgt oldb newb tr))) files in
   let all_fit = List.for_all (fun (name, _) ->
     let (parses, nw, _) = (try List.assoc name details with Not_found -> (false, "", [])) in
-    parses && mode <> "rodir" && not (mode = "rlimit" && String.length nw > limit)) files in
+    parses && mode <> "rodir" && String.length name < 250 && not (mode = "rlimit" && String.length nw > limit)) files in
   let model = Printf.sprintf "exit=%s left=0 finals=%s" (if all_fit then "0" else "1")
       (String.concat "," (List.map (fun (n, c) -> n ^ ":" ^ c) expected)) in
   (* the property on the implementation's behaviour *)
